@@ -1,9 +1,10 @@
-\* C03 thorough (simulation): 2 threads; instances new(), shared(), shared(); property maps {a:1},{a:2,b:1},{b:2}; all kinds and forms;
+\* C03 thorough (simulation): 2 threads; instances default(), default(), setup()-built, new(), shared(), shared(); property maps {a:1},{a:2,b:1},{b:2}; all kinds and forms;
 \* <= 3 frames, 2 tasks, nesting <= 3, panic unwinding; random behaviours of depth 14 replayed.
 SPECIFICATION Spec
 CONSTANTS
     NThreads = 2
-    StoreOf <- MC_Store3
+    StoreOf <- MC_StoreT
+    InstKind <- MC_KindT
     NKeys = 2
     PropChoices <- MC_Props3
     Kinds <- MC_AllKinds
